@@ -461,6 +461,9 @@ func (e *Engine) verifyFunction(key string) (res *FuncResult) {
 		c.heapGet(f.heap, "G "+g.Name, arraySort(SInt, specSort(g.Sort))) // register ghost state at entry
 	}
 	env := f.baseEnv(f.heap)
+	if ct.Decreases != nil {
+		f.fnVariant0 = c.name("fnvariant", env.eval(ct.Decreases.E).T)
+	}
 	var deferred []Let
 	for _, l := range ct.Lets {
 		if exprMentionsCall(l.E, "local") {
